@@ -79,6 +79,8 @@ structure CpOps (κ : Type) where
   revert : World → κ → R World
   /-- `create_account_checkpoint(caller, address, address_has_storage, value, spec)` -/
   createCheckpoint : World → Nat → Nat → Bool → Nat → Nat → R (World × Except Journal.CreateErr κ)
+  /-- `set_code_with_hash(address, code, hash)` of `create_return` (journaled: an outer revert undoes it) -/
+  setCode : World → Nat → Nat → R World
 
 /-- `JournaledState::{checkpoint, checkpoint_commit, checkpoint_revert, create_account_checkpoint}` -/
 def journalOps : CpOps Journal.Checkpoint where
@@ -89,6 +91,9 @@ def journalOps : CpOps Journal.Checkpoint where
     let (js, r) ← ofOpt "create_account_checkpoint"
       (Journal.createAccountCheckpoint w.js caller a hasStorage value spec)
     pure ({ w with js := js }, r)
+  setCode := fun w a hash => do
+    let js ← ofOpt "set_code" (Journal.setCode w.js a hash)
+    pure { w with js := js }
 
 structure Frame (κ : Type) where
   kind : FrameKind
@@ -241,8 +246,8 @@ def createReturn {κ : Type} (C : CpOps κ) (cfg : Cfg) (w : World) (cp : κ) (a
   let w := C.commit w
   -- set code
   let hash := if r.output.isEmpty then KECCAK_EMPTY else Keccak.keccak256w r.output
-  let js ← ofOpt "set_code" (Journal.setCode w.js address hash)
-  let w := { w with js := js }.addCode hash r.output
+  let w ← C.setCode w address hash
+  let w := w.addCode hash r.output
   pure ({ r with result := .Return }, w)
 
 end Revm.Model.Evm
